@@ -8,9 +8,9 @@ stdout: JSON lines {"id", "ok", "why", ...}
 
 Oracle (independent of any model): the body is opaque iff the tree of `raw` is the tree of
 `raw_ph` with the placeholder replaced by the body -- same node classes, same shape, same
-attributes everywhere else -- where for nowiki/pre the leaf may differ from the body only by
-decoded character entity references (pre: additionally <nowiki>..</nowiki> wrappers removed,
-which core.py:create_pre documents).  Any Link/Style/Template-expanded/… node stemming from
+attributes everywhere else -- where for nowiki/pre the leaf is the body with its character entity
+references decoded, once (pre: after the <nowiki>..</nowiki> wrappers literally written in the body are
+removed, which core.py:create_pre documents; see expected_leaves).  Any Link/Style/Template-expanded/… node stemming from
 the body changes the shape and is reported."""
 import html.entities
 import json
@@ -51,51 +51,47 @@ ENT_RX = re.compile(r"&(#[0-9]+|#[xX][0-9a-fA-F]+|[A-Za-z0-9]+);")
 def ent_value(name):
     try:
         if name.startswith("#x") or name.startswith("#X"):
-            return chr(int(name[2:], 16))
-        if name.startswith("#"):
-            return chr(int(name[1:]))
-        return chr(html.entities.name2codepoint[name])
+            v = int(name[2:], 16)
+        elif name.startswith("#"):
+            v = int(name[1:])
+        else:
+            v = html.entities.name2codepoint[name]
+        if 0xD800 <= v <= 0xDFFF:
+            return None          # not a character (util._chr refuses it as well): the reference stays as written
+        return chr(v)
     except (KeyError, ValueError, OverflowError):
         return None
 
 
-def decodable(leaf, body):
-    """leaf == body with some (any subset) of its valid character entity references decoded."""
-    memo = {}
-
-    def go(i, j):
-        key = (i, j)
-        if key in memo:
-            return memo[key]
-        if j == len(body):
-            r = i == len(leaf)
-        else:
-            r = False
-            if i < len(leaf) and leaf[i] == body[j] and go(i + 1, j + 1):
-                r = True
-            elif body[j] == "&":
-                m = ENT_RX.match(body, j)
-                if m:
-                    v = ent_value(m.group(1))
-                    if v is not None and leaf.startswith(v, i) and go(i + len(v), m.end()):
-                        r = True
-        memo[key] = r
-        return r
-
-    sys.setrecursionlimit(10000)
-    return go(0, 0)
+def full_decode(body):
+    """every valid character reference (named / decimal / hex, ASCII digits, terminated by ';') replaced by its character,
+    ONE pass, left to right: what a decoded reference produces is never looked at again (&amp;lt; -> &lt;)."""
+    def rep(m):
+        v = ent_value(m.group(1))
+        return m.group(0) if v is None else v
+    return ENT_RX.sub(rep, body)
 
 
 NOWIKI_RX = re.compile(r"<nowiki>(.*?)</nowiki>", re.I | re.S)
 
 
-def leaf_ok(tag, leaf, body):
+def expected_leaves(tag, body):
+    """what the property allows in the tree for a body as WRITTEN.
+    nowiki: the body with its character references decoded.
+    pre   : the <nowiki>..</nowiki> pairs that are literally written in the body only protect (core.py:create_pre drops the
+            two tags, keeps what is between them), then the character references are decoded.  Anything that exists only
+            AFTER decoding -- &lt;nowiki&gt;, &#60;/NOWIKI&#62;, &#91;&#91;x&#93;&#93;, &amp;lt; .. -- is text: it is neither
+            interpreted nor removed nor decoded a second time.
+    others: the body, byte for byte."""
     if tag == "nowiki":
-        return decodable(leaf, body)
+        return [full_decode(body)]
     if tag == "pre":
-        # create_pre: remove_nowiki_tags, then entities
-        return decodable(leaf, body) or decodable(leaf, NOWIKI_RX.sub(lambda m: m.group(1), body))
-    return leaf == body
+        return [full_decode(NOWIKI_RX.sub(lambda m: m.group(1), body))]
+    return [body]
+
+
+def leaf_ok(tag, leaf, body):
+    return leaf in expected_leaves(tag, body)
 
 
 def compare(a, b, ph, tag, body, path, found):
@@ -129,7 +125,7 @@ def cmp_val(va, vb, ph, tag, body, path, found):
             return "%s: surrounding text changed: %r, expected %r" % (path, va[:120], vb[:120])
         leaf = va[len(pre):len(va) - len(post)]
         if not leaf_ok(tag, leaf, body):
-            return "%s: leaf %r is not the body %r" % (path, leaf[:120], body[:120])
+            return "%s: leaf %r is not the body %r (expected in the tree: %r)" % (path, leaf[:120], body[:120], expected_leaves(tag, body)[0][:120])
         found.append(path)
         return None
     if isinstance(vb, dict) and isinstance(va, dict):
